@@ -409,12 +409,20 @@ fn run_case(line: &str) -> String {
                 // worker.rs notify_result, Err arm.  `fail`: unconditional (the code before the
                 // F45 repair); `failc`: only while the awaiter still awaits the target (after it).
                 let k = a[0].usize();
+                let mut wake = false;
                 if let Some(process) = ctx.ex.get_process_mut(PID) {
                     if name == "fail" || process.awaiting.contains_key(&(100 + k)) {
                         process.result =
                             Some(Err(quiver_core::Error::InvalidArgument(format!("awaited {} failed", k))));
                         process.frames.clear();
+                    } else {
+                        wake = true;
                     }
+                }
+                if wake {
+                    // the repaired worker only wakes an awaiter that no longer awaits the target
+                    // (`wake_selecting`; pid 0 is never parked in `spawning`, so mark_active is the same)
+                    ctx.ex.mark_active(PID);
                 }
                 out.push_str(&format!(" ({} {})", name, dump(&ctx)));
             }
